@@ -177,8 +177,26 @@ pub enum Keep {
     Mints,
 }
 
+/// A context entry that goes in through serde (`Context::insert(name, &value)`), the way embedders
+/// fill a context: a Rust `char`, `String`, struct field, `Vec<char>`, map value, tuple, `Option`.
+/// (Seeded change C01-11 made the serializer store a `char` as a safe string.)
+#[derive(Clone, Debug, serde_derive::Serialize)]
+#[serde(untagged)]
+pub enum SerdeIn {
+    Str(String),
+    Char(char),
+    Chars(Vec<char>),
+    Field { f: String },
+    CharField { c: char },
+    OptStr(Option<String>),
+    MapVal(std::collections::BTreeMap<String, String>),
+    Tuple((i32, char, String)),
+}
+
 pub struct SrcOut {
     pub ctx: Vec<(String, V)>,
+    /// entries inserted through serde
+    pub serde: Vec<(String, SerdeIn)>,
     /// statements emitted before anything else (no output)
     pub pre: String,
     /// loop wrapper (opening tag, closing tag): the rest of the program is the loop body
@@ -213,6 +231,16 @@ pub const SOURCES: &[&str] = &[
     "loop-map-key",
     "loop-map-value",
     "bytes",
+    // the datum put into the context through serde
+    "serde-string",
+    "serde-struct-field",
+    "serde-map-value",
+    "serde-option",
+    "serde-tuple-string",
+    "serde-char",
+    "serde-char-field",
+    "serde-tuple-char",
+    "serde-chars-loop",
     // containers printed whole
     "array-whole",
     "array-literal-whole",
@@ -363,6 +391,7 @@ pub fn build_source(name: &str, d: &Datum) -> Option<SrcOut> {
     let only_normal = |x: SrcOut| if d.safe { None } else { Some(x) };
     let mk = |ctx: Vec<(&str, V)>, cur: &str, raw: String, keep: Keep| SrcOut {
         ctx: ctx.into_iter().map(|(k, v)| (k.to_string(), v)).collect(),
+        serde: vec![],
         pre: String::new(),
         open: None,
         cur: cur.to_string(),
@@ -404,6 +433,38 @@ pub fn build_source(name: &str, d: &Datum) -> Option<SrcOut> {
         "literal-sq" => return only_normal(mk(vec![], &lit_sq(t), t.into(), Keep::Must)),
         "literal-in-array" => {
             return only_normal(mk(vec![], &format!("[{}][0]", lit_dq(t)), t.into(), Keep::Must));
+        }
+        // ---- the datum inserted through serde (normal strings only: serde cannot mark)
+        "serde-string" | "serde-struct-field" | "serde-map-value" | "serde-option" | "serde-tuple-string" => {
+            let (var, cur, val) = match name {
+                "serde-string" => ("sd", "sd", SerdeIn::Str(t.into())),
+                "serde-struct-field" => ("sm", "sm.f", SerdeIn::Field { f: t.into() }),
+                "serde-map-value" => ("sm", "sm.f", SerdeIn::MapVal([("f".to_string(), t.to_string())].into())),
+                "serde-option" => ("so", "so", SerdeIn::OptStr(Some(t.into()))),
+                _ => ("st", "st[2]", SerdeIn::Tuple((1, 'x', t.into()))),
+            };
+            let mut s = mk(vec![], cur, t.into(), Keep::Must);
+            s.serde = vec![(var.to_string(), val)];
+            return only_normal(s);
+        }
+        "serde-char" | "serde-char-field" | "serde-tuple-char" => {
+            // the first character of the datum as a Rust `char`
+            let c = t.chars().next().unwrap();
+            let (var, cur, val) = match name {
+                "serde-char" => ("sc", "sc", SerdeIn::Char(c)),
+                "serde-char-field" => ("sm", "sm.c", SerdeIn::CharField { c }),
+                _ => ("st", "st[1]", SerdeIn::Tuple((1, c, "x".into()))),
+            };
+            let mut s = mk(vec![], cur, c.to_string(), Keep::Must);
+            s.serde = vec![(var.to_string(), val)];
+            return only_normal(s);
+        }
+        "serde-chars-loop" => {
+            let mut s = mk(vec![], "x", String::new(), Keep::Must);
+            s.iters = t.chars().map(|c| c.to_string()).collect();
+            s.serde = vec![("scs".to_string(), SerdeIn::Chars(t.chars().collect()))];
+            s.open = Some(("{% for x in scs %}".into(), "{% endfor %}".into()));
+            return only_normal(s);
         }
         "loop-array" => {
             let mut s = mk(c_arr(), "x", t.into(), Keep::Must);
@@ -1138,6 +1199,7 @@ pub struct Program {
     /// `render_str` and be wrapped into a component for `render_component`
     pub leaf_plain: bool,
     pub ctx: Vec<(String, V)>,
+    pub serde: Vec<(String, SerdeIn)>,
     pub expected_off: String,
     /// every route hands escaped text / values on unchanged
     pub as_is: bool,
@@ -1170,5 +1232,5 @@ pub fn build(source: &str, routes: &[Route], sink: Sink, d: &Datum) -> Result<Op
     let leaf_plain = b.chain.len() == 1 && !b.tpls[leaf].has_block;
     let mut tpls: Vec<(String, String)> = b.tpls.iter().map(|t| (t.name.clone(), t.text.clone())).collect();
     tpls.push((format!("comps.{EXT}"), format!("{COMPS_FIXED}{}", src.comps)));
-    Ok(Some(Program { tpls, leaf, leaf_plain, ctx: src.ctx, expected_off, as_is: b.as_is, keep: src.keep }))
+    Ok(Some(Program { tpls, leaf, leaf_plain, ctx: src.ctx, serde: src.serde, expected_off, as_is: b.as_is, keep: src.keep }))
 }
